@@ -30,6 +30,41 @@ def jobs(ctx):
             out.append(Job(REL, PKG, "c25_algebra.go", "VerifC25Misc", {"la": la, "lb": lb}, flags=FLAGS, tag="misc la=%d lb=%d" % (la, lb), cost=2.0 ** (la + lb)))
     for entry in ("VerifC25Merge", "VerifC25Intersect", "VerifC25Misc"):
         out.append(Job(REL, PKG, "c25_algebra.go", entry, {"la": 1, "lb": 1, "rc": 3}, flags=FLAGS, tag=entry + " twin", twin=True))
+    out += closure_jobs(ctx)
+    return out
+
+
+def closure_jobs(ctx):
+    """set.Closure on symbolic equation systems: node kinds are a driver parameter (base-3 digits, node 0 first: 0 union with a symbolic
+    base set, 1 intersection of earlier nodes, 2 complement of an earlier node), edge targets are free choices, set elements symbolic."""
+    out = []
+    q = ctx.tier == "quick"
+    R, P, HC = "util/set", "set", "c25_closure.go"
+
+    def kinds_of(k):
+        return [c for c in range(3 ** k) if c % 3 == 0]       # node 0 has no earlier node: it is a union node
+
+    def add(k, kinds, buf, ln, ideg, udeg, cost):
+        out.append(Job(R, P, HC, "VerifC25Closure", {"k": k, "buf": buf, "kinds": kinds, "len": ln, "ideg": ideg, "udeg": udeg},
+                       tag="closure k=%d kinds=%d buf=%d len=%d ideg=%d udeg=%d" % (k, kinds, buf, ln, ideg, udeg), cost=cost))
+    for k in (1, 2):
+        for kinds in kinds_of(k):
+            for buf in (0, 4):
+                add(k, kinds, buf, 2, 2, 2, 5)
+    for kinds in kinds_of(3):
+        nu = sum(1 for i in range(3) if (kinds // 3 ** i) % 3 == 0)
+        add(3, kinds, 4, 2, 2, 1, 40.0 * 4 ** nu)
+        if not q:
+            add(3, kinds, 0, 2, 2, 1, 40.0 * 4 ** nu)
+    # four nodes: intersections and complements over two base sets (no Include edges), and cyclic unions with one derived node
+    for kinds in kinds_of(4):
+        ds = [(kinds // 3 ** i) % 3 for i in range(4)]
+        nu = ds.count(0)
+        if nu == 2 and ds[1] != 0 or (not q and nu <= 2):
+            add(4, kinds, 4, 2, 2, 0, 300.0)
+        if not q and nu == 3:
+            add(4, kinds, 4, 1, 2, 1, 3000.0)
+    out.append(Job(R, P, HC, "VerifC25Closure", {"k": 2, "buf": 0, "kinds": 3, "len": 1, "ideg": 1, "udeg": 1}, tag="closure twin", twin=True))
     return out
 
 
@@ -37,10 +72,13 @@ def describe(ctx):
     return {
         "explanation": "container.Merge/Intersect/Complement/Equals/BitSet/Empty executed symbolically on two sorted sets with symbolic "
                        "elements and Inverse flags; membership of a symbolic probe in the result is compared with the boolean combination of "
-                       "memberships; results must be strictly sorted, inside the universe, operands unchanged.",
+                       "memberships; results must be strictly sorted, inside the universe, operands unchanged. set.Closure (Add/Include/Intersect/Complement/"
+                       "Compute incl. graph.Tarjan, closure, slowClosure, IntSliceMap interning) on equation systems of <=4 nodes with symbolic base sets: "
+                       "error iff a complement lies on a dependency cycle, otherwise every node equals the stratified least solution for a symbolic probe.",
         "bounds": {"set_sizes": "quick: min<=1 & sum<=7, or sum<=4; thorough: min<=1 & sum<=9, min<=2 & sum<=8, or sum<=7", "universe": "[0,64)",
-                   "reuse": "nil, len0, len1, len8 (not aliasing operands)"},
-        "outside": ["larger sets", "reuse buffers aliasing an operand (exercised through set.Closure instead)"],
+                   "reuse": "nil, len0, len1, len8 (not aliasing operands)",
+                   "closure": "k<=3 nodes all kind vectors, k=4 selected kind vectors; base sets <=2 elements over [0,4); intersections of <=2 earlier nodes; <=1 (k<=2: 2) Include edges per union node, any target; NewClosure(0) and NewClosure(4)"},
+        "outside": ["larger sets", "reuse buffers aliasing an operand (exercised through set.Closure instead)", "equation systems with more than 4 nodes or wider intersections"],
         "trusted": ["go/ssa", "symgo executor", "z3", "harness oracle verifMember/verifSorted"],
         "assumptions": ["int is 64-bit", "operands are strictly increasing (the documented representation)"],
     }
